@@ -203,6 +203,11 @@ def main():
             if found and found.get("found"):
                 rp = cex.replay(hname, found["inputs"])
                 payload.update(kind="input", harness=hname, inputs=found["inputs"], search=found, native=rp)
+            elif any(v["key"].startswith(fr) for fr in P.FRAGILE):
+                # D17: proof by bit-vector lemmas, no failing input in the harness's exhaustive enumeration: not a verdict
+                undecided.append(f"{v.get('world')}: obligation {v['key']} failed to verify but the native search of {hname} found no failing input; "
+                                 "the proof of this clause rests on bit-vector lemmas that an equivalent rewrite can defeat (rule D17) — undecided")
+                continue
             else:
                 payload.update(kind="obligation", search=found)
                 suffix = " no-failing-input-found"
